@@ -503,6 +503,18 @@ def first_diff(ta, tb, tol=TOL, noise=None):
     return None
 
 
+def perturb(d, nd):
+    """the dump / SOLUTION_MODIFY text with -total_h (nd == 13) or -total_o (nd == 12) of every solution increased by 1e-9 mol
+    (about 100 resp. 1000 spacings of a 14-significant-digit number of that size), printed with 17 digits"""
+    k = "total_h" if nd in (13, 11) else "total_o"
+    sg = 1.0 if nd in (13, 12) else -1.0        # both directions: the response is one-sided (excess O oxidises, excess H has nothing to reduce)
+    return re.sub(r"(-%s\s+)(\S+)" % k, lambda m: m.group(1) + ("%.17g" % (float(m.group(2)) + sg * PERT) if NUM_RE.match(m.group(2)) else m.group(2)), d)
+
+
+PERT = 1e-9
+H_SPACING, O_SPACING = 1e-11, 1e-12     # spacing of 14-significant-digit decimals near 111 (total_h) and 55.5 (total_o)
+
+
 def truncate_digits(d, nd, keys=("total_h", "total_o")):
     """the dump text with -total_h / -total_o of every solution printed with nd significant digits"""
     for k in keys:
@@ -955,7 +967,7 @@ def run_round_trip(ctx, cases, static_defects, kw2cls, timeout_each=25):
             elif d:
                 pre = c.defs if label == "fresh-instance" else c.text + "\nEND\nDELETE\n -all\nEND\n"
                 pending.append({"c": c, "label": label, "d": d, "user": "97", "orig": to,
-                                "text": lambda nd, pre=pre, c=c: pre + truncate_digits(c.d1, nd) + "\nEND\n" + c.follow,
+                                "text": lambda nd, pre=pre, c=c: pre + perturb(c.d1, nd) + "\nEND\n" + c.follow,
                                 "what": "follow-up RUN_CELLS differs between original and restored state (%s)" % label,
                                 "key": "followup:%s:%s" % (label, d[1]), "extra": {"followup": c.follow}})
         # SOLUTION_MODIFY with totals / total_h / total_o / cb only
@@ -978,7 +990,7 @@ def run_round_trip(ctx, cases, static_defects, kw2cls, timeout_each=25):
                     elif d:
                         fo96, _ = followup(c.d1, [c.mod[2]], 96)
                         pending.append({"c": c, "label": "modify", "d": d, "user": "96", "orig": tmo,
-                                        "text": lambda nd, c=c, fo96=fo96: c.text + "\nEND\n" + c.mod[0] + "END\n" + truncate_digits(c.mod[1], nd) + "END\n" + fo96,
+                                        "text": lambda nd, c=c, fo96=fo96: c.text + "\nEND\n" + c.mod[0] + "END\n" + perturb(c.mod[1], nd) + "END\n" + fo96,
                                         "what": "restoring totals/total_h/total_o/cb through SOLUTION_MODIFY gives different follow-up results",
                                         "key": "modify:%s" % d[1], "extra": {"modify": c.mod[0] + "END\n" + c.mod[1]}})
     # the original instance and an exact in-memory copy of its state in a fresh instance give grossly different follow-up
@@ -1005,8 +1017,8 @@ def run_round_trip(ctx, cases, static_defects, kw2cls, timeout_each=25):
                 add(c, "followup:bin:%s" % (d if isinstance(d, str) else d[1]),
                     "follow-up RUN_CELLS differs grossly between the original and its exact in-memory copy: " + desc, str(d),
                     "relative difference <= 1e-5", {"followup": c.follow})
-    # numeric follow-up differences: is the 14-significant-digit text of total_h / total_o the cause?  (degrade it to 13 and
-    # 12 digits: if the deviation from the original grows with the truncation, it is.)
+    # numeric follow-up differences: is the 14-significant-digit text of total_h / total_o the cause?  Measure the sensitivity
+    # of the differing cell to total_h and to total_o (+1e-9 mol each, 17 digits) and bound what rounding to 14 digits can do.
     if pending:
         dj = []
         alias = {}
@@ -1018,8 +1030,8 @@ def run_round_trip(ctx, cases, static_defects, kw2cls, timeout_each=25):
                 continue
             seen[sig] = k
             alias[k] = k
-            if len(dj) < 120:
-                for nd in (13, 12):
+            if len(dj) < 160:
+                for nd in (13, 12, 11, 10):
                     dj.append(job("diag%d/%d" % (k, nd), p["c"].db, p["text"](nd)))
         t0 = time.time()
         D = run_jobs(dj, timeout_each, workers)
@@ -1027,21 +1039,22 @@ def run_round_trip(ctx, cases, static_defects, kw2cls, timeout_each=25):
         for k, p in enumerate(pending):
             i, h, a, b = p["d"]
             devs = []
-            for nd in (13, 12):
+            for nd in (13, 12, 11, 10):
                 r = D.get("diag%d/%d" % (alias[k], nd)) or {}
                 try:
                     t = vlib.table_dicts(r["tables"][p["user"]])
-                    devs.append(abs(float(t[i][h]) - float(a)))
+                    devs.append(abs(float(t[i][h]) - float(b)))          # effect of +1e-9 mol in total_h resp. total_o
                 except Exception:
                     pass
             dev14 = abs(float(a) - float(b)) if isinstance(a, float) and isinstance(b, float) else None
             desc = "row %d column %s: %r (original) vs %r (restored)" % (i, h, a, b)
             cc = p["c"]
-            # (a) the deviation scales with the number of digits kept, (b) its size is what the 13/12-digit deviations predict
-            # for 14 digits, (c) the exact in-memory copy of the same state reproduces the original at 1e-7 in that cell,
+            # (a,b) the deviation is within 3x of (sensitivity to total_h) x (half spacing of 14-digit decimals near 111) +
+            # the same for total_o, (c) the exact in-memory copy of the same state reproduces the original at 1e-7 in that cell,
             # (d) every value the text carries was restored (second dump identical apart from items Coq classifies as dropped)
-            scaled = bool(dev14 and len(devs) == 2 and max(devs) >= 5 * dev14
-                          and dev14 <= 20 * max(devs[0] / 10.0, devs[1] / 100.0))
+            # sensitivity of this cell to total_h / total_o (per mol) times the largest rounding error of a 14-digit decimal
+            bound = (max(devs[0], devs[2]) / PERT * H_SPACING / 2 + max(devs[1], devs[3]) / PERT * O_SPACING / 2) if len(devs) == 4 else 0.0
+            scaled = bool(dev14 and len(devs) == 4 and dev14 <= 3 * bound)
             copy_ok = False
             try:
                 if p["label"] != "modify":
@@ -1055,7 +1068,7 @@ def run_round_trip(ctx, cases, static_defects, kw2cls, timeout_each=25):
                 stats["precision_explained"] = stats.get("precision_explained", 0) + 1
                 add(p["c"], "precision:dump-text-14-digits",
                     "DUMP prints 14 significant digits; the loss in -total_h/-total_o (~1e-12 mol) changes follow-up results by more than 1e-7 relative: " + desc,
-                    {"cell": desc, "deviation_with_14_digits": dev14, "deviation_with_13_and_12_digits": devs, "path": p["label"],
+                    {"cell": desc, "deviation_with_14_digits": dev14, "effect_of_+-1e-9_mol_in_total_h_total_o_(h+,o+,h-,o-)": devs, "path": p["label"],
                      "in_memory_copy_agrees_with_original": copy_ok, "text_fully_restored": text_ok},
                     "relative difference <= 1e-7", p["extra"])
             elif getattr(cc, "lost_items", None) and dev14 is not None and dev14 <= 100 * TOL * max(abs(float(a)), abs(float(b))):
@@ -1064,10 +1077,10 @@ def run_round_trip(ctx, cases, static_defects, kw2cls, timeout_each=25):
                 li = cc.lost_items[0]
                 add(cc, "schema:%s:%s" % (li[0], li[1]),
                     "%s %s is not restored from the DUMP text (%s) and follow-up results on the restored state deviate slightly: %s" % (li[0], li[1], li[2], desc),
-                    {"cell": desc, "deviation": dev14, "deviation_with_13_and_12_digits": devs, "path": p["label"]}, "relative difference <= 1e-7", p["extra"])
+                    {"cell": desc, "deviation": dev14, "effect_of_+-1e-9_mol_in_total_h_total_o_(h+,o+,h-,o-)": devs, "path": p["label"]}, "relative difference <= 1e-7", p["extra"])
             else:
                 add(p["c"], p["key"], p["what"] + ": " + desc,
-                    {"cell": desc, "deviation_with_14_digits": dev14, "deviation_with_13_and_12_digits": devs, "scales_with_digits": scaled,
+                    {"cell": desc, "deviation_with_14_digits": dev14, "effect_of_+-1e-9_mol_in_total_h_total_o_(h+,o+,h-,o-)": devs, "scales_with_digits": scaled,
                      "in_memory_copy_agrees_with_original": copy_ok, "text_fully_restored": text_ok}, "relative difference <= 1e-7", p["extra"])
     # model reader vs implementation on the real text
     ents_all = []
